@@ -535,6 +535,40 @@ pub fn adversarial() -> Vec<Vec<u8>> {
             }
         }
     }
+    // QPACK table references: every index 0..=300 in every representation that carries one (indexed static / dynamic,
+    // post-base indexed, literal with static / dynamic / post-base name reference), minimal and one-byte-padded encodings.
+    // The static table ends at 98: the indices just past the end must be refused, not looked up.
+    for idx in 0..=300u64 {
+        for (first, prefix_bits) in [(0xc0u8, 6u32), (0x80, 6), (0x10, 4), (0x50, 4), (0x40, 4), (0x00, 3)] {
+            let maxp = (1u64 << prefix_bits) - 1;
+            let mut enc: Vec<Vec<u8>> = vec![];
+            if idx < maxp {
+                enc.push(vec![first | idx as u8]);
+            } else {
+                let mut rest = idx - maxp;
+                let mut e = vec![first | maxp as u8];
+                while rest >= 128 {
+                    e.push((rest % 128) as u8 | 0x80);
+                    rest /= 128;
+                }
+                e.push(rest as u8);
+                let mut padded = e.clone();
+                let l = padded.len();
+                padded[l - 1] |= 0x80;
+                padded.push(0x00);
+                enc.push(e);
+                enc.push(padded);
+            }
+            for e in enc {
+                for tail in [&[][..], &[0x01, b'v'][..], &[0x00][..]] {
+                    let mut s = vec![0x00, 0x00];
+                    s.extend_from_slice(&e);
+                    s.extend_from_slice(tail);
+                    v.push(s);
+                }
+            }
+        }
+    }
     // frame / capsule length fields at and beyond every limit, with and without payload
     for ty in [0x00u64, 0x01, 0x04, 0x21, 0x3f, 0x2843] {
         for len in [63u64, 64, 4095, 4096, 4097, 16383, 16384, 65535, 65536, (1 << 30) - 1, 1 << 30, (1 << 32) - 1, 1 << 32, 1 << 40, (1 << 61), rc::VARINT_MAX] {
